@@ -34,6 +34,13 @@ PLAN = {
  "C12d-threads-cap-minus-one": ["C12"], "C13d-mask-before-project": ["C13"], "C14d-tajima-variance-s": ["C14", "C06"],
  "C15d-npy-block-buffer-not-cleared": ["C15", "C07"], "C16d-i4-read-as-i16": ["C16", "C15"], "C17d-populations-nonempty-any": ["C17", "C09"],
  "C18d-peek-magic-fill-buf": ["C18"], "C19d-get-axis-off-by-one": ["C19"],
+ # round 5
+ "C01e-samples-file-64k-cap": ["C01"], "C02e-projectable-total-plus-one": ["C02", "C10"], "C03e-create-fewer-projection-dims": ["C03", "C02"],
+ "C04e-keep-all-shortcut": ["C04"], "C05e-diagonal-sum-overflow": ["C05"], "C06e-upfront-normalize-pixy": ["C06"], "C07e-file-metadata-len": ["C07", "C13"],
+ "C08e-allele-index-u8": ["C08"], "C09e-samples-file-is-file": ["C09"], "C10e-projectable-total-plus-one": ["C10", "C02"], "C11e-cached-gt-key": ["C11"],
+ "C12e-bgzf-16-byte-magic": ["C12", "C18"], "C13e-output-not-truncated": ["C13", "C07"], "C14e-normalize-once-any": ["C14", "C06"],
+ "C15e-output-not-truncated-bufwriter": ["C15", "C07"], "C16e-qq-exit-zero": ["C16", "C10"], "C17e-descr-fromstr-split-at": ["C17"],
+ "C18e-prefix-consume-available": ["C18"], "C19e-then-some-eager": ["C19"],
 }
 seeds = sys.argv[1:] or sorted(PLAN)
 for seed in seeds:
